@@ -5,14 +5,14 @@
    Standing premises, named where used:
      wf_set S / wf_member sp  - no operator method raises on a member; discharged below (theorems C05_wf_...) for everything the constructors
                                 accept, through SpecLink.compare_op_total;
-     respects l               - members of l that are == as Specifier objects match the same candidates (C10's clause; trivially true
-                                when l holds no two different spellings of equal clauses: respects_of_literal);
+     respects l               - members of l that are == as Specifier objects match the same candidates; proved below for every list
+                                of constructor-built members (C05_respects_built, from the C03 main theorem and the C10 congruences);
      reparses sp              - str(member) parses back to the member, is stripped and comma-free (parser completeness on the canonical
                                 layout is C12's; the comma exclusion is known finding D19).
    This file holds statements only; proofs are in Sets/*.v. *)
 From Coq Require Import List Arith NArith Bool Lia Permutation.
 Import ListNotations.
-Require Import S1 VParse Py VMeaning SpecModel SpecParse Prefix SpecContains SortPerm SetModel SetsModel SetsBridge SetsFs SetsParse SetsLaws SetsLink SpecOps VKeyEq.
+Require Import S1 VParse Py VMeaning SpecModel SpecParse Prefix SpecContains SortPerm SetModel SetsModel SetsBridge SetsFs SetsParse SetsLaws SetsLink SetsC10 SpecOps VKeyEq.
 Open Scope N_scope.
 
 (* 0. the premise wf_member / wf_set holds for every specifier / set the constructors accept *)
@@ -69,6 +69,20 @@ Theorem C05_text_order_dup_irrelevant s s' p p' l :
     forall b inst item, set_contains S (Some b) inst item = set_contains S' (Some b) inst item.
 Proof. exact (text_order_dup_irrelevant s s' p p' l). Qed.
 Print Assumptions C05_text_order_dup_irrelevant.
+Theorem C05_text_order_dup_irrelevant_text s s' p p' S :
+  SpecifierSet s p = Some S -> (forall t, In t (clauses s) <-> In t (clauses s')) ->
+  exists S', SpecifierSet s' p' = Some S' /\
+    forall b inst item, set_contains S (Some b) inst item = set_contains S' (Some b) inst item.
+Proof. exact (text_order_dup_irrelevant_text s s' p p' S). Qed.
+Print Assumptions C05_text_order_dup_irrelevant_text.
+(* the premise `respects` holds for every list of members the Specifier constructor built (== specifiers match alike) *)
+Theorem C05_equal_specifiers_match_alike sa sb a b c : Specifier sa = Some a -> Specifier sb = Some b ->
+  sp_eqb a b = true -> VMeaning.wf_version c -> matches a c = matches b c.
+Proof. exact (equal_specifiers_match_alike sa sb a b c). Qed.
+Print Assumptions C05_equal_specifiers_match_alike.
+Theorem C05_respects_built l : Forall built l -> respects l.
+Proof. exact (built_respects l). Qed.
+Print Assumptions C05_respects_built.
 Theorem C05_respects_literal l : literal l -> respects l.
 Proof. exact (respects_of_literal l). Qed.
 Print Assumptions C05_respects_literal.
@@ -91,6 +105,13 @@ Theorem C05_and_is_both A B C b inst item c : set_and A B = Some C -> wf_set A -
               set_contains C (Some b) inst item = Ans (x && y).
 Proof. exact (and_is_both A B C b inst item c). Qed.
 Print Assumptions C05_and_is_both.
+
+Theorem C05_and_is_both_text a b pa pb A B C x inst item c : SpecifierSet a pa = Some A -> SpecifierSet b pb = Some B ->
+  set_and A B = Some C -> Version item = Some c ->
+  exists u v, set_contains A (Some x) inst item = Ans u /\ set_contains B (Some x) inst item = Ans v /\
+              set_contains C (Some x) inst item = Ans (u && v).
+Proof. exact (and_is_both_text a b pa pb A B C x inst item c). Qed.
+Print Assumptions C05_and_is_both_text.
 
 (* 7. & is commutative (same override, equal as sets, same error behaviour) and associative (literally, including the error cell) *)
 Theorem C05_and_comm A B : fs_ok (ms A) -> fs_ok (ms B) ->
@@ -144,8 +165,6 @@ Proof. split; [exact d19_is_a_specifier | exact str_reparse_refuted_D19]. Qed.
 Print Assumptions C05_str_reparse_refuted_D19.
 
 (* NOT PROVED here (covered by correspondence and the law.s.* cases only):
-   - `respects` for differently spelled equal clauses (that is C10: equal specifiers match the same candidates); it is proved
-     here only for clause lists without such pairs (C05_respects_literal);
    - `reparses sp` for every constructor-accepted comma-free specifier (C12 completeness of the specifier scanner on str(sp)). *)
 
 (* non-vacuity: ">=1.0" is a wf_member, " >=1.0 ,, <2 " parses to a two-member set that contains 1.5 and not 2.0,
